@@ -26,9 +26,9 @@ from props.c01 import SHAPES
 
 PROPERTY = 'C02'
 
-NAMES = ['CIRC', 'STREAM', 'GUARD', 'CONF_CHANGED']      # valid event names
+NAMES = ['CIRC', 'STREAM', 'GUARD', 'CONF_CHANGED', 'CIRC_MINOR', 'STREAM_BW']      # valid event names
 SUB = 'CIRC'          # subscribed in the route family
-UNSUB = 'STREAM'      # valid, nobody listens
+UNSUB = 'CIRC_MINOR'  # valid, nobody listens - and the subscribed name is a prefix of it
 UNKNOWN = 'BOGUS'     # not in events/names
 BEHAVIOURS = ['rec', 'raise', 'rm-self', 'rm-next', 'rm-prev', 'add-new']
 
@@ -65,7 +65,7 @@ class Listener(object):
         env.actions.append(('deliver', self, payload))
         b = self.behaviour
         if b == 'raise':
-            raise RuntimeError('listener %r raises' % (self,))
+            raise RuntimeError('listener %r raises {not a field} }{ %%s' % (self,))
         if self.did:
             return
         self.did = True
@@ -512,7 +512,8 @@ def run_listen(combos, acc):
     acc.sample(dict(family='listen', listeners=combo, log=r['log'][-8:]), limit=1)
 
 
-SUB_OPS = [(op, n, i) for op in ('add', 'rm') for n in ('CIRC', 'STREAM') for i in (0, 1)]
+SUBS_NAMES = ('CIRC', 'CIRC_MINOR')      # one name is a prefix of the other
+SUB_OPS = [(op, n, i) for op in ('add', 'rm') for n in SUBS_NAMES for i in (0, 1)]
 
 
 def run_subs(first, depth, acc):
@@ -570,7 +571,7 @@ def run_subs_one(ops, delayed):
             steps += 1
             d = answer_pending(ctl, answered, {})
         evs = []
-        for k, name in enumerate(('CIRC', 'STREAM')):
+        for k, name in enumerate(SUBS_NAMES[::-1] + SUBS_NAMES[:1]):
             data, payload, marker = make_event(k, name, 's')
             evs.append(dict(k=k, name=name, form='s', payload=payload, marker=marker))
             ctl.deliver(data)
